@@ -6,7 +6,7 @@ import (
 	"encoding/hex"
 	"fmt"
 	"os"
-	"runtime/debug"
+
 	"sort"
 	"strconv"
 	"strings"
@@ -23,11 +23,11 @@ import (
 type bRun struct {
 	b        *balloon.Balloon
 	store    *bplus.BPlusTreeStore
-	events   [][]byte                     // by version
-	snaps    []*balloon.Snapshot          // by version
-	last     map[string]uint64            // digest -> version the log reports for it
-	callEnds []uint64                     // version count after each call
-	addPanic string                       // set when Add/AddBulk panicked
+	events   [][]byte            // by version
+	snaps    []*balloon.Snapshot // by version
+	last     map[string]uint64   // digest -> version the log reports for it
+	callEnds []uint64            // version count after each call
+	addPanic string              // set when Add/AddBulk panicked
 }
 
 // addFailed reports an insertion that panicked (a violation of C01, C04 and C11 alike).
@@ -53,7 +53,7 @@ func newBRun() *bRun {
 func (r *bRun) close() {
 	r.b.Close()
 	r.store.Close()
-	debug.FreeOSMemory()
+	// (no debug.FreeOSMemory here: re-faulting the 1.1 GB batch cache of the next balloon costs ~3 s; the freed span is reused)
 }
 
 // add performs Add (single==true, one event) or AddBulk and persists the mutations.
